@@ -90,7 +90,7 @@ def generate(rng, idx, tier, variant):
     init_kw = {}
     for nm in rng.sample(names, rng.randint(0, min(2, len(names)))):
         init_kw[nm] = {'via': rng.choice(handles[nm]), 'v': [float(rng.randrange(1, 50)) for _ in range(n)] if rng.random() < 0.6 else float(rng.randrange(1, 50))}
-    spec = {'span': sp, 'model': model, 'aliases': al, 'topology': topo, 'preferred': pref, 'init_kw': init_kw, 'strict': rng.random() < 0.3}
+    spec = {'span': sp, 'model': model, 'aliases': [[k_, v_] for k_, v_ in al.items()], 'topology': topo, 'preferred': pref, 'init_kw': init_kw, 'strict': rng.random() < 0.3}
     ops = []
     base = 100
     for _ in range(rng.randint(3, 16)):
@@ -117,7 +117,9 @@ def generate(rng, idx, tier, variant):
             items = []
             for nm2 in rng.sample(names, min(len(names), rng.randint(1, 3))):
                 base += 11
-                items.append([nm2, rng.choice(handles[nm2]), {'k': 'scalar', 'e': 'float', 'base': base} if rng.random() < 0.5 else {'k': 'seq', 'c': 'list', 'len': 'n', 'e': 'float', 'base': base}])
+                r2 = rng.random()
+                vs = {'k': 'scalar', 'e': 'float', 'base': base} if r2 < 0.45 else {'k': 'seq', 'c': 'list', 'len': 'n' if r2 < 0.85 else rng.choice(['n+1', 'n-1']), 'e': 'float', 'base': base}
+                items.append([nm2, rng.choice(handles[nm2]), vs])
             op['items'] = items
         elif kind == 'get':
             op.update({'pos': rng.randrange(n), 'form': rng.choice([0, 1]), 'a': rng.choice([None] + list(range(n))), 'b': rng.choice([None] + list(range(n)))})
@@ -143,7 +145,7 @@ def build_classes(fsic, spec):
         base = fsic.build_model(fsic.parse_model(model['script']))
     else:
         base = probes.make_scripted(fsic, model)
-    mixed = type('Aliased', (AliasMixin, base), {'ALIASES': dict(spec['aliases']), 'PREFERRED_NAMES': list(spec['preferred'])})
+    mixed = type('Aliased', (AliasMixin, base), {'ALIASES': dict(map(tuple, spec['aliases'])), 'PREFERRED_NAMES': list(spec['preferred'])})
     return base, mixed
 
 
@@ -165,7 +167,7 @@ def execute(schedule, ctx):
     spec = schedule['spec']
     chk = lambda sig, ok, detail=None: ctx.check('C18', sig, ok, detail)  # noqa: E731
     base, mixed = build_classes(fsic, spec)
-    al = spec['aliases']
+    al = dict(map(tuple, spec['aliases']))  # declaration order is part of the configuration: kept as a pair list
     model = spec['model']
     names = list(model['names']) if model['kind'] == 'parser' else model['endo'] + model['exo']
     for t_ in spec.get('topology', []):
@@ -343,7 +345,7 @@ def execute(schedule, ctx):
 
 
 def do_dataframe(A, K, spec, op, names, chk, ctx):
-    al = spec['aliases']
+    al = dict(map(tuple, spec['aliases']))
     try:
         dfA = A.to_dataframe(use_aliases=op['use_aliases'])
     except Exception as e:
